@@ -20,6 +20,8 @@ fn cls(x: isize) -> &'static str { if x == isize::MIN { "min" } else if x == isi
 pub fn grid(thorough: bool) -> Vec<isize> {
     let mut g: Vec<isize> = vec![isize::MIN, isize::MIN + 1, -(1 << 62), -1_000_000_000, -7, -2, -1, 0, 1, 2, 7, 1_000_000_000, 1 << 62, isize::MAX - 1, isize::MAX,
                                  (1 << 24) + 1, -((1 << 24) + 1), (1 << 53) + 1, -((1 << 53) + 1)];
+    // close pairs at large magnitudes (neighbours of every large grid value): rounding to f32/f64 must not make distinct bounds equal
+    for v in g.clone() { if v.unsigned_abs() > 1000 && v > isize::MIN + 4 && v < isize::MAX - 4 { g.push(v + 1); g.push(v - 1); g.push(v + 2); } }
     if thorough {
         for k in 0..63 { g.push(1 << k); g.push(-(1 << k)); g.push((1 << k) + 1); g.push(-(1 << k) - 1); g.push((1 << k) - 1); }
         for x in -40..=40 { g.push(x); }
